@@ -28,7 +28,24 @@ def snapshot (s : Ui.State) : Json :=
                 ("window", Json.arr window.toArray),
                 ("haschildren", Json.bool page.children.isSome),
                 ("hasfrontier", Json.bool page.frontier.isSome),
-                ("basepoint", Json.num page.basepoint)]
+                ("basepoint", Json.num page.basepoint),
+                ("histback", Json.num s.hist.index),
+                ("histforward", Json.num (s.hist.elements.length - 1 - s.hist.index))]
+
+/-- The bytes the harness sends for a key token: `BYTES <hex>` stands for raw bytes (JSON strings
+    cannot carry bytes that are not UTF-8), everything else for its UTF-8 encoding. -/
+def tokenBytes (k : Str) : List Nat :=
+  if "BYTES ".toList.isPrefixOf k then
+    let hexVal (c : Char) : Nat :=
+      if c.isDigit then c.toNat - '0'.toNat
+      else if 'a'.toNat ≤ c.toNat ∧ c.toNat ≤ 'f'.toNat then c.toNat - 'a'.toNat + 10
+      else if 'A'.toNat ≤ c.toNat ∧ c.toNat ≤ 'F'.toNat then c.toNat - 'A'.toNat + 10
+      else 0
+    let rec go : List Char → List Nat
+      | a :: b :: rest => (16 * hexVal a + hexVal b) :: go rest
+      | _ => []
+    go (k.drop 6)
+  else (String.ofList k).toUTF8.toList.map (·.toNat)
 
 def uiOp (j : Json) : Except String Res := do
   let w0 ← pubWorldOf j
@@ -64,15 +81,53 @@ def uiOp (j : Json) : Except String Res := do
         | _, _ => none
       | _ => none
     | _ => []
-  match Ui.start w context start feeds with
+  -- how the interface was started: `open <x>` (the default) or `feed <name>`; an unknown feed
+  -- or subcommand is reported to main before any page exists
+  let startcmd : Str := match j.getObjVal? "startcmd" with | .ok (Json.str c) => c.toList | _ => "open".toList
+  let refused := (startcmd = "feed".toList ∧ (feeds.find? (fun f => f.1 = start)).isNone) ∨
+                 (startcmd ≠ "feed".toList ∧ startcmd ≠ "open".toList)
+  -- which HELD tokens found their load in flight (reported by the harness, in order)
+  let heldFlags : List Bool := match j.getObjVal? "held" with
+    | .ok (Json.arr a) => a.toList.map fun v => v == Json.bool true
+    | _ => []
+  if refused then
+    pure { model := Json.mkObj [("subcommanderr", true)],
+           preds := [("interface_not_wedged", true)], nontrivial := true }
+  else
+  match (if startcmd = "feed".toList then Ui.subcommand w { context := context, feeds := feeds } startcmd start
+         else Ui.start w context start feeds) with
   | .error _ => pure { model := panicJson }
   | .ok s0 =>
     let mut s := s0
     let mut snaps : Array Json := #[snapshot s]
     let mut panicked := false
     let mut opened : Array Json := #[]
+    let mut heldLeft := heldFlags
     for k in keys do
       if panicked then break
+      -- HELD <starter> <during>…: when the starter's load was in flight while the remaining
+      -- tokens arrived, the keymap says they do nothing (Update returns at once in loading
+      -- mode); otherwise they were typed one by one as usual
+      if "HELD\x1f".toList.isPrefixOf k ∨ "HELDS\x1f".toList.isPrefixOf k then
+        let parts := ((String.ofList k).splitOn "\x1f").drop 1
+        let inflight := heldLeft.headD false
+        heldLeft := heldLeft.drop 1
+        let toks := if inflight then parts.take 1 else parts
+        for t in toks do
+          if "RESIZE ".isPrefixOf t then continue
+          if t == "HOOKDONE" then
+            s := Ui.hookDone s
+            continue
+          for b in tokenBytes t.toList do
+            if panicked then break
+            match Ui.opens w s b with
+            | some l => opened := opened.push (js l)
+            | none => pure ()
+            match Ui.update w s b with
+            | .ok s' => s := s'
+            | .error _ => panicked := true
+        if !panicked then snaps := snaps.push (snapshot s)
+        continue
       -- a terminal resize changes no state the model holds (frames are judged by the predicate)
       if "RESIZE ".toList.isPrefixOf k then
         snaps := snaps.push (snapshot s)
@@ -88,7 +143,7 @@ def uiOp (j : Json) : Except String Res := do
         snaps := snaps.push (snapshot s)
         continue
       -- the harness sends the UTF-8 bytes of the token one by one
-      let bytes := (String.ofList k).toUTF8.toList.map (·.toNat)
+      let bytes := tokenBytes k
       -- byte by byte, to see which keys start the hook and with which link
       for b in bytes do
         if panicked then break
